@@ -1,11 +1,16 @@
 import CelmaVerif.Base.Proto
 import CelmaVerif.Model.Keys
 import CelmaVerif.Model.KeysCmdline
-/- line-protocol driver for the keys component (C05) -/
+import CelmaVerif.Model.KeysSub
+/- line-protocol driver for the keys component (C05)
+   `table` = the plain arguments (`Handler::mArguments`), `sub` = the sub-group arguments of the same
+   handler (`Handler::mSubGroupArgs`); the payload of an entry is the GLOBAL definition index (plain and
+   sub-group arguments counted together). -/
 open CelmaVerif CelmaVerif.Keys CelmaVerif.Proto
 
 structure St where
   table : List (Key × Nat) := []
+  sub : List (Key × Nat) := []
 
 def toChars (bs : List Nat) : List Char := bs.map Char.ofNat
 def ofChars (cs : List Char) : List Nat := cs.map Char.toNat
@@ -28,9 +33,21 @@ def step (s : St) (line : String) : St × String :=
   | ["keys", "add", hx] =>
     match hexDecode hx with
     | some bs =>
-      let idx := s.table.length
-      match addArgumentSpec s.table (toChars bs) idx with
-      | .ok t => ({ table := t }, s!"ok idx={idx}")
+      let idx := s.table.length + s.sub.length
+      -- `ArgumentKey( spec)`, then `mArguments.addArgument( obj, key, &mSubGroupArgs)`; with no sub-group
+      -- argument defined this is `addArgumentSpec s.table spec idx`
+      match (do let k ← Key.parse (toChars bs); addArgumentChecked s.table s.sub k idx) with
+      | .ok t => ({ s with table := t }, s!"ok idx={idx}")
+      | .throw e => (s, s!"throw {e.name}")
+      | .oob w => (s, s!"oob {w}")
+    | none => (s, "bad-op")
+  | ["keys", "addsub", hx] =>
+    match hexDecode hx with
+    | some bs =>
+      let idx := s.table.length + s.sub.length
+      -- `ArgumentKey( spec)`, then `mSubGroupArgs.addArgument( obj, key, &mArguments)`
+      match (do let k ← Key.parse (toChars bs); addArgumentChecked s.sub s.table k idx) with
+      | .ok t => ({ s with sub := t }, s!"ok idx={idx}")
       | .throw e => (s, s!"throw {e.name}")
       | .oob w => (s, s!"oob {w}")
     | none => (s, "bad-op")
@@ -48,7 +65,7 @@ def step (s : St) (line : String) : St × String :=
     | some bs, true =>
       match classifyWord (toChars bs) with
       | none => (s, "bad-op")        -- not one of the two plain key words: outside this model
-      | some _ => (s, findLine (cmdLookup (abbr == "1") s.table (toChars bs)))
+      | some _ => (s, findLine (cmdLookupT (abbr == "1") s.table s.sub (toChars bs)))
     | _, _ => (s, "bad-op")
   | ["keys", "parse", hx] =>
     match hexDecode hx with
